@@ -293,7 +293,8 @@ def _run_case(case):
                 out["text"] = open(path).read()
             except Exception as e:
                 out["write_raised"] = "%s: %s" % (type(e).__name__, str(e)[:100])
-            if "text" in out:
+            if "text" in out and not P["big"]:
+                # (data that need more than six digits are not re-solved: the rounded LP is another LP, and GLPK was seen to cycle on such data)
                 out["solve0"] = _solve(m, prob, solvers)
                 out["objconst"] = _project(m, prob.objective, prob.variables(), matrix)[1][0]
         else:
@@ -304,7 +305,7 @@ def _run_case(case):
             try:
                 p2.fromfile(path)
                 out["read"] = _observe_op(m, p2, matrix)
-                if case["kind"] == "w":
+                if case["kind"] == "w" and not case["P"]["big"]:
                     out["solve1"] = _solve(m, p2, solvers)
             except Exception as e:
                 out["read_raised"] = "%s: %s" % (type(e).__name__, str(e)[:100])
